@@ -352,3 +352,30 @@ def _reassigned_before(fn, did, at_id):
         if hit and fn.reaches(x.id, at_id):
             return True
     return False
+
+
+def resolve_at(fn, n, depth=0):
+    """resolve_local, and for a local with several definitions (`if(auto slb = head; slb) ... else { slb = make(); ... }`) the
+    one definition that reaches this use, if there is exactly one."""
+    from . import flow
+    n = n.strip()
+    if depth > 8 or n.kind != "DeclRefExpr" or not n.get("local"):
+        return n
+    inits = local_inits(fn)
+    did = n.d["d"]
+    if not _reassigned(fn, did):
+        if did in inits:
+            return resolve_at(fn, inits[did], depth + 1)
+        return n
+    pos = fn.positions()
+    a, hops = n, 0
+    while a is not None and a.id not in pos and hops < 12:
+        a, hops = fn.parent(a), hops + 1
+    if a is None:
+        return n
+    defs = flow.reaching_defs(fn, did, a.id)
+    if len(defs) == 1:
+        d0 = next(iter(defs))
+        if d0 is not None:
+            return resolve_at(fn, d0, depth + 1)
+    return n
